@@ -33,6 +33,7 @@ RULE = ("history = 1-12 operations drawn state-dependently from {create / overwr
         "Non-trivial: the history has an append-by-reopen after a close, or an incompatible append, or an overwrite "
         "followed by an append. Distinct = distinct case JSON."
         " Also: binary chunks of 64 KiB..2 MiB (row count derived from the row size), reserved header names in any case.")
+RULE += (" " + 'Also: one chunk in seven is a 2-d array of records; user headers may carry keys that contain a reserved name.')
 ASSUMPTIONS = [
     "reads happen only while no write handle is open (documented usage; buffered data of an open handle need not be on disk)",
     "one handle at a time on a file; 1-d chunks with at least one row; packed dtypes",
